@@ -33,65 +33,48 @@ def run(ctx):
                       "log mutation guarded by !is_conflict && !is_higher_term of the legality check result",
                       "follower log mutation `%s` reachable without the consistency check having succeeded" % name,
                       loc(mb, bi), bpath(mb, (w1 or w2)) if (w1 or w2) else None)
-    # ---------------------------------------------------------------- C04-b
+    # ---------------------------------------------------------------- C04-b exact decision table of the consistency check
     chk = ctx.anchor(F.method, "ReplicationHandler", "check_append_entries_request_is_legal")
     if chk:
         mb = F.main_body(chk)
-        conds = edge_conditions(mb)
-        succ = calls_matching(mb, r"replication_ext::success$")
-        high = calls_matching(mb, r"replication_ext::higher_term$")
-        conf = calls_matching(mb, r"replication_ext::conflict$")
-        ctx.floor("C04-b", len(succ), 2, "success responses in check_append_entries_request_is_legal")
-        ctx.floor("C04-b", len(high), 1, "higher_term responses")
-        ctx.floor("C04-b", len(conf), 2, "conflict responses")
+        paths = table_of(ctx, "C04-b", mb, "check_append_entries_request_is_legal")
+        if paths:
+            tb0 = pathsym.Table(paths)
+            my, req = par(2), par(3)
+            q_my = pick(tb0.quant, my, "")
+            q_rt = pick(tb0.quant, fld(req, "term"), "")
+            q_pi = pick(tb0.quant, fld(req, "prev_log_index"), "")
+            q_pt = pick(tb0.quant, fld(req, "prev_log_term"), "")
 
-        def is_my(s):
-            return any(x[0] == "param" and x[1] == 2 for x in s.sources)   # my_term (2nd parameter after self)
+            def is_et(e):
+                return e[0] == "call" and e[1].endswith("entry_term") and len(e[2]) == 2 and fld(req, "prev_log_index")(e[2][1])
+            v_et = pick(list(tb0.vars), is_et, "")
+            q_et = pick(tb0.quant, lambda e: e[0] == "field" and e[2].split(".")[-1] == "0" and is_et(e[1]), "")
+            known_q = {q_my, q_rt, q_pi, q_pt, q_et}
+            stray = [sym_show(q) for q in tb0.quant if q not in known_q] + [sym_show(b) for b in tb0.bools] + [sym_show(v) for v in tb0.vars if v != v_et]
+            missing = [n for n, x in (("my_term", q_my), ("request.term", q_rt), ("prev_log_index", q_pi), ("prev_log_term", q_pt), ("entry_term(prev_log_index)", v_et), ("its term", q_et)) if x is None]
+            if missing or stray:
+                ctx.bad("C04-b", "%s#table" % fkey(chk), "UNRECOGNISED-FORM: the consistency check does not decide on exactly (my_term, request.term, prev_log_index, prev_log_term, "
+                        "entry_term(prev_log_index)): missing %s, unexpected %s" % (missing, stray), "%s:%s" % (mb.file, mb.line))
+            else:
+                def outcome(p, w):
+                    r = p.ret
+                    if r[0] == "call":
+                        nm = r[1].split("::")[-1]
+                        if nm in ("success", "higher_term", "conflict"):
+                            return nm
+                    return "other:" + sym_show(r)[:60]
 
-        def is_req_term(s):
-            return s.has_field("AppendEntriesRequest", "term")
-
-        def my_gt_req(c):
-            return cmp_rel(F, c, is_my, is_req_term) == ">"
-
-        def my_le_req(c):
-            return cmp_rel(F, c, is_my, is_req_term) == "<="
-        for n, (bi, t) in enumerate(high):
-            ok, wit, _ = guarded_by(mb, bi, my_gt_req, conds)
-            ctx.check("C04-b", "%s#higher_term" % fkey(chk), ok, "HigherTerm only when my_term > request.term",
-                      "HigherTerm response not guarded by my_term > request.term", loc(mb, bi), wit and bpath(mb, wit))
-
-        def sentinel(field):
-            return lambda c: cmp_rel(F, c, lambda s: s.has_field("AppendEntriesRequest", field), lambda s: s.consts() == ["0"] and not s.sources - {("const", "0")}) == "=="
-
-        def term_match(c):
-            # entry_term(prev_log_index) == request.prev_log_term
-            return cmp_rel(F, c, lambda s: s.has_call(r"RaftLog::entry_term$"), lambda s: s.has_field("AppendEntriesRequest", "prev_log_term")) == "=="
-        kinds = {"sentinel": 0, "match": 0}
-        for (bi, t) in succ:
-            g1, _w, _ = guarded_by(mb, bi, my_le_req, conds)
-            s_idx, _w1, _ = guarded_by(mb, bi, sentinel("prev_log_index"), conds)
-            s_trm, _w2, _ = guarded_by(mb, bi, sentinel("prev_log_term"), conds)
-            m, wm, _ = guarded_by(mb, bi, term_match, conds)
-            kind = "sentinel" if (s_idx and s_trm) else ("match" if m else "unguarded")
-            if kind in kinds:
-                kinds[kind] += 1
-            ctx.check("C04-b", "%s#success#%s" % (fkey(chk), kind), g1 and kind != "unguarded",
-                      "success only under my_term <= request.term and (%s)" % ("prev == (0,0)" if kind == "sentinel" else "entry_term(prev_log_index) == prev_log_term"),
-                      "success response reachable without the prev-log term match (g_term=%s idx0=%s term0=%s match=%s)" % (g1, s_idx, s_trm, m),
-                      loc(mb, bi), wm and bpath(mb, wm))
-            if kind == "match":
-                # the entry_term lookup is for request.prev_log_index
-                et = [x for x in calls_matching(mb, r"RaftLog::entry_term$") if mb.dominates(x[0], bi)]
-                okarg = any(Slice(F, mb).operand(tt["args"][1]).has_field("AppendEntriesRequest", "prev_log_index") for (_b, tt) in et)
-                ctx.check("C04-b", "%s#success#match#lookup-index" % fkey(chk), okarg, "entry_term is looked up at request.prev_log_index",
-                          "the term compared with prev_log_term is not looked up at request.prev_log_index", loc(mb, bi))
-        ctx.floor("C04-b", kinds["match"], 1, "success guarded by the term match")
-        for n, (bi, t) in enumerate(conf):
-            # a conflict answer is never produced where the terms matched
-            ok, wit, _ = guarded_by(mb, bi, lambda c: term_match(c), conds)
-            ctx.check("C04-b", "%s#conflict[%d]" % (fkey(chk), n), not ok, "conflict not under a term match",
-                      "conflict response is produced on the matching branch", loc(mb, bi))
+                def spec(w):
+                    if w.int(q_my) > w.int(q_rt):
+                        return "higher_term"
+                    if w.int(q_pi) == 0 and w.int(q_pt) == 0:
+                        return "success"
+                    if w.v[v_et] == "Some" and w.int(q_et) == w.int(q_pt):
+                        return "success"
+                    return "conflict"
+                run_table(ctx, "C04-b", "%s#table" % fkey(chk), paths, outcome, spec, "%s:%s" % (mb.file, mb.line),
+                          what="HigherTerm iff my_term > request.term; else success iff prev == (0,0) or entry_term(prev_log_index) == Some(prev_log_term); else conflict")
     # ---------------------------------------------------------------- C04-c
     foc = ctx.anchor(F.method, "BufferedRaftLog", "filter_out_conflicts_and_append")
     if foc:
